@@ -215,6 +215,27 @@ def case(c):
                   expected=float(g_ref[k]))
         out = {'err': relerr(g, g_ref) if g.shape == g_ref.shape else None}
 
+        # --- the gradient stays the derivative of the reported misfit after
+        # sensitivity products with other vectors were formed on the same
+        # object (jvec / jtvec use the gradient machinery and its caches)
+        if g.shape == g_ref.shape and np.all(np.isfinite(g)):
+            rw = zoo.rng('c07', 'w', sim.survey.shape)
+            wv = (rw.standard_normal(sim.survey.shape) +
+                  1j*rw.standard_normal(sim.survey.shape))*np.abs(r).max()
+            vv = zoo.rng('c07', 'v', g.shape).standard_normal(g.shape)
+            with adjoint.exact_mode():
+                sim.jvec(vv)
+                sim.jtvec(wv)
+                phi3 = float(sim.misfit)
+                g3 = np.array(sim.gradient)
+            compared += 2
+            if not abs(phi3 - phi_ref) <= 1e-9*abs(phi_ref):
+                V('misfit-changed-by-jvec-jtvec', f'{phi3!r} vs {phi_ref!r}')
+            if g3.shape != g_ref.shape or not relerr(g3, g_ref) <= 1e-8:
+                V('gradient-after-jvec-jtvec-differs-from-exact-derivative',
+                  'gradient read after jvec(v), jtvec(w) on the same '
+                  f'simulation: rel. error {relerr(g3, g_ref):.2e}')
+
         # --- finite differences of the real misfit (binding to the code)
         if c.get('fd'):
             import emg3d
